@@ -33,6 +33,7 @@ from path import Path
 from .api import amend
 from .asyncio import wait_for_readable_fd
 from .exceptions import RunError
+from .hash import FileHash
 from .extapi import get_local_import_paths
 from .outcome import ChildOutcome, ResourceUsage
 from .step import Step
@@ -296,6 +297,13 @@ class Run:
 
     inp_digest: bytes = attrs.field(init=False, default=b"")
     """The input digest, which some steps may use to decide whether cached results are valid."""
+
+    inp_hashes: dict[str, FileHash] = attrs.field(init=False, factory=dict)
+    """The hashes of the inputs as verified right before the command started, keyed by path.
+
+    The inputs are compared to these after the command has run, not to the stored hashes,
+    because the latter may have been refreshed while the command was running.
+    """
 
     out_missing: list[str] = attrs.field(init=False, factory=list)
     """List of expected output files that were not created."""
